@@ -343,6 +343,8 @@ def model_check(ctx, thorough):
         ctx.log('MC_MemAlloc_deep (5 calls): %d distinct states' % r.distinct)
         r = ctx.tlc_expect_ok(['memalloc'], 'MC_MemAlloc.tla', 'MC_MemAlloc_any.cfg', workers=vlib.NCPU, timeout=3000)
         ctx.log('MC_MemAlloc_any (any free page, 3 calls): %d distinct states' % r.distinct)
+        r = ctx.tlc_expect_ok(['memalloc'], 'Buddy.tla', 'MC_Buddy_big.cfg', timeout=1800)
+        ctx.log('MC_Buddy_big (8 pages, requests up to 8 pages): %d distinct states' % r.distinct)
         ctx.cov['exhaustive'] = True
 
 
